@@ -541,6 +541,35 @@ def h11(led, rid, ctx):
               % bad)
 
 
+def h13(led, rid, ctx):
+    """incremental insertion: for every existing profile the new mandatory part overlaps, the gap
+    before it and the overlap with it are handled — no way round the loop skips
+    new_profile_between_profiles or overlap_updated_profile (MUST-PASS on the cycle)"""
+    lib = ctx.lib
+    n = 0
+    for f in lib.fns.values():
+        if "over_interval_incremental_propagator/insertion.rs" not in f.file or f.kind == "Closure":
+            continue
+        cfg = f.cfg
+        for name in ("new_profile_between_profiles", "overlap_updated_profile"):
+            cs = f.calls_named(name)
+            if not cs:
+                continue
+            c = cs[0]
+            heads = [h for h in cfg.loop_heads() if cfg.dominates(h, c.bb)]
+            if not heads:
+                continue
+            h = max(heads, key=lambda x: sum(1 for y in heads if cfg.dominates(y, x)))
+            n += 1
+            skip = cfg.reaches(h, [h], avoid=[c.bb], strict=True)
+            led.check(not skip, rid, "%s:every-iteration-calls-%s" % (f.name, name), c.span,
+                      "no cycle of the profile loop avoids the call",
+                      "%s can go round its loop over the overlapped profiles without calling %s: for such a "
+                      "profile the gap before it (or the overlap with it) is not recorded, the incremental "
+                      "time-table under-counts and this variant accepts overloads the others refute" % (f.name, name))
+    led.floor(rid, "per-profile steps of the incremental insertion", n, 2)
+
+
 def h12(led, rid, ctx):
     """handler ⇔ registration for the cumulative propagators (instance of C01-S5)"""
     from .C01 import s5_propagator_events
@@ -561,3 +590,5 @@ def run(ctx, led):
     from . import C17 as _C17
     run_rule(led, "H10", "the cached profile explanation is reset whenever the profile changes (shared with C17-L12)", _C17.l12, ctx)
     run_rule(led, "H11", "WITNESS-POINT of pointwise hole explanations lies in the profile and in the task's run", h11, ctx)
+    run_rule(led, "H13", "incremental insertion handles the gap and the overlap for every overlapped profile (MUST-PASS on the loop)", h13, ctx)
+    run_rule(led, "H14", "reasons assembled from several profiles are the union of their parts (shared with C17-L21)", _C17.l21, ctx)
